@@ -21,7 +21,7 @@ __CPROVER_assigns(lp->p.p_msgs.count, verif_rb_calls, verif_rb_arg)
 __CPROVER_ensures(array_count(lp->p.p_msgs) == past_i && verif_rb_calls == __CPROVER_old(verif_rb_calls) + 1 && verif_rb_arg == past_i)
 ;
 #endif
-#define NM (NH + 6) /* messages: one per history slot + incoming / scheduled / early anti-messages */
+#define NM (NH + 4) /* messages: one per history slot + incoming / scheduled / early anti-messages */
 
 /* ------------------------------------------------------------------ environment state */
 struct simulation_configuration global_config;
